@@ -69,6 +69,7 @@ type quotaCase struct {
 	E       [][]int        `json:"e"`
 	Fc      []int          `json:"fc"`
 	Bnd     []bool         `json:"bnd"`
+	Exact   bool           `json:"exact"`
 	Lost    []int          `json:"lost"`
 	Raw     []int          `json:"raw"`
 	Q1      []int          `json:"q1"`
@@ -258,9 +259,10 @@ func (c *quotaCase) stepwise(st *quotaStats) (bad string, matched bool) {
 		realRaw[k] = q
 		cum += q
 		realLost[k] = c.Fc[k] - cum
-		if realLost[k] != 0 && !(realLost[k] == 1 && c.Bnd[k]) {
+		if realLost[k] != 0 && !(realLost[k] == 1 && c.Bnd[k] && !c.Exact) {
 			bad += fmt.Sprintf("countOffspring: after species %d (position %d) the running quota total is %d, floor of the cumulative expectation is %d "+
-				"(boundary: %v) - fractions are not carried over in species order; ", sp.Id, k+1, cum, c.Fc[k], c.Bnd[k])
+				"(integer boundary: %v, float64 arithmetic exact on this input: %v) - fractions are not carried over in species order; ",
+				sp.Id, k+1, cum, c.Fc[k], c.Bnd[k], c.Exact)
 		}
 	}
 	if bad != "" {
@@ -495,8 +497,8 @@ func replayQuota(args []string) int {
 		idx++
 		rep.Cases++
 		raw := json.RawMessage(append([]byte(nil), line...))
-		// the input of the behaviour (everything the code sees, without the loss vector / coins)
-		inKey := fmt.Sprint(c.N, c.DropOff, c.Sig, c.St, c.Bs, c.Hf0, c.Ehlc0, c.Species, c.wantedCoins())
+		// the input of the behaviour (everything the code sees; the loss vector and the coins belong to the behaviour)
+		inKey := fmt.Sprint(c.N, c.DropOff, c.Sig, c.St, c.Bs, c.Hf0, c.Ehlc0, c.Species)
 		inputsSeen[inKey] = true
 		fail := func(stage, what string) {
 			rep.Fail(map[string]interface{}{"case": raw, "stage": stage, "what": "[" + stage + "] " + what,
